@@ -532,7 +532,11 @@ func CheckVerdict(c Case) (vs hx.Vs, ev evidence) {
 					}
 					vs.Add("pattern-misses-own-statement:"+who, "%s rule on pattern %q (derived from the statement by %s) does not match statement %q", h.kind, o.desc, opsName(o.pat.d.Applied), x.text)
 				} else {
-					vs.Add("pattern-matches-different-statement:"+x.info.kind, "%s rule on pattern %q (derived from %q) matches the structurally different statement %q", h.kind, o.desc, p.pool[o.pat.from].text, x.text)
+					why := "other-tables"
+					if o.pat.d.Whole != "" || p.pool[o.pat.from].kind != x.info.kind {
+						why = "other-kind"
+					}
+					vs.Add("pattern-matches-different-statement:"+why, "%s rule on pattern %q (derived from %q) matches the structurally different statement %q", h.kind, o.desc, p.pool[o.pat.from].text, x.text)
 				}
 			}
 		}
